@@ -74,6 +74,20 @@ CLAIMED.update({
             "DESIGN.md §3 C18"),
 })
 
+CLAIMED.update({
+    "C12": ("Inductive steps on the real GemEquipmentHandler: from every pre-state satisfying the invariant J (every linked report "
+            "exists, link lists duplicate-free and non-empty) built from symbolic report ids, link shapes, enabled flags and variable "
+            "values, one real _on_s02f33 / _on_s02f35 / _on_s02f37 request with symbolic ids (known, unknown, repeated, empty lists, "
+            "delete-one / delete-all) is compared with an E5 reference model: acknowledge code class, refused => nothing changed, "
+            "accepted => exactly the model's effect, J preserved, and the following S6F15 reply and triggered S6F11 contain exactly "
+            "the linked reports in link order with the current values. One step from every J-state covers histories of any length.",
+            "Trusted: CrossHair + chx, the reference model inside obligations/C12.py, SimpleDict substitution for id-keyed tables, "
+            "requests delivered as structured function objects (codec = C03), inline sender thread. Bounds: <= 2 reports, <= 2 links, "
+            "<= 2 entries per request, 8-bit numeric ids; quick runs 8 slices per request type, thorough all 180. Duplicate ids inside "
+            "one request may be refused or applied duplicate-free (both readings accepted).",
+            "DESIGN.md §3 C12"),
+})
+
 NOT_APPLICABLE = {
 }
 
